@@ -22,7 +22,13 @@ import (
 
 type RNG struct{ S uint64 }
 
-func NewRNG(seed uint64) *RNG { return &RNG{S: seed*0x9E3779B97F4A7C15 + 0x1234567} }
+// NewRNG derives an unrelated stream per seed (the seed is hashed: consecutive seeds must not give shifted copies of one stream).
+func NewRNG(seed uint64) *RNG {
+	z := (seed + 0x632BE59BD9B4E019) * 0xD1342543DE82EF95
+	z = (z ^ (z >> 32)) * 0xBF58476D1CE4E5B9
+	z = (z ^ (z >> 29)) * 0x94D049BB133111EB
+	return &RNG{S: z ^ (z >> 32)}
+}
 func (r *RNG) Next() uint64 {
 	r.S += 0x9E3779B97F4A7C15
 	z := r.S
@@ -41,7 +47,7 @@ func (r *RNG) Chance(p int) bool { return r.Intn(100) < p } // p percent
 func (r *RNG) Pick(s []string) string {
 	return s[r.Intn(len(s))]
 }
-func (r *RNG) Fork() *RNG { return &RNG{S: r.Next()} }
+func (r *RNG) Fork() *RNG { return NewRNG(r.Next()) }
 
 // ---------- protocol encoding ----------
 
